@@ -18,9 +18,9 @@ class C08(Prop):
     props_file = "Props/C08.v"
     model_targets = ["theories/Agent/BackoffCheck.vo"]
     technique = "Coq proof over Z with explicit int64 wrap (all retry counts in [0,2^64), all PRNG draws) + regenerated constants + differential run of ExponentialBackoffDuration and pollForNewRequests against the model envelope"
-    level_text = ("Theorems C08_schedule, C08_doubles_then_caps, C08_positive_bounded, C08_loop (Props/C08.v) prove for every retry count of the uint range, "
+    level_text = ("Theorems C08_schedule, C08_doubles_then_caps, C08_positive_bounded, C08_loop, C08_no_busy_loop (Props/C08.v) prove for every retry count of the uint range, "
                   "every jitter draw and every outcome pattern that the modelled delay is strictly positive, equals min(2^n ms, 3 s) within +-10%, and that the loop's counter "
-                  "is the number of consecutive failures. The constants are regenerated from the source on every run; the real functions are run on ~2000 retry counts and on scripted "
+                  "is the number of consecutive failures, and that any run sleeps once per failed list call and at least 0.9 ms (less 1 ns) per failed call in total. The constants are regenerated from the source on every run; the real functions are run on ~2000 retry counts and on scripted "
                   "failure patterns and must fall inside the model's envelope.")
     level_note = ("Trusted: Coq kernel; srcfacts constant evaluation; float rounding within 1 ns of exact arithmetic; rand.Float64 in [0,1); time.Sleep lower bound; "
                   "40 ms scheduling slack on observed sleeps. Modelled, not verified: math.Log2, math/rand, time.Sleep.")
